@@ -118,7 +118,7 @@ def check(ctx):
         "canary); C17 re-decided exactly on the real objects (membership by exact evaluation, intersection alternative by "
         "alternative, <= by exact search for a point outside the right union, disjointness by exact feasibility). "
         "non-trivial = the operation returned a value or ValueError; distinct counted per (scenario, operation)")
-    proved = ctx.prove("props/C17.v", ["proofs/CompoundFacts.v"])
+    proved = ctx.prove("props/C17.v", ["proofs/CompoundFacts.v", "proofs/CompoundGenNested.v", "proofs/CompoundGenContract.v"])
     ctx.build(["model/Compound.vo", "model/Corr.vo"])
     n = (60 if ctx.quick else 1500) * (1 if proved else 3)
     res = cc.selftest(n, ctx.seed + 17, tag="c17")
